@@ -192,6 +192,20 @@ theorem signextend_sval (b : Bits) (hb : b.WF) (n : Nat) (r : Bits) (h : b.signe
       have e2 : ((2 ^ b.size : Nat) : Int) = (2 : Int) ^ b.size := by simp
       omega
 
+/-! ### vocabulary of the history theorems -/
+
+/-- a step of a history "fits" when a contiguous slice assignment is given a value below 2^(stop-start)
+    (every other mutating operation either succeeds within the size or is refused by the code itself) -/
+def Fits (b : Bits) : MutOp → Prop
+  | .setSlice start stop step v =>
+      ∀ s e st, sliceIndices start stop step b.size = .ok (s, e, st) → st = 1 → s < e → v.ival < 2 ^ (e - s).toNat
+  | _ => True
+
+/-- every step of the history fits the state it is applied to -/
+def AllFit : Bits → List MutOp → Prop
+  | _, [] => True
+  | b, op :: ops => Fits b op ∧ ∀ b', b.applyOp op = .ok b' → AllFit b' ops
+
 /-! ### Hamming weight -/
 
 theorem hw_eq (b : Bits) : b.hw = ((List.range b.size).filter fun i => b.ival.testBit i).length := by
